@@ -49,6 +49,16 @@ Lemma pinned_body_ConvertFile : gen_body_ConvertFile =
    "return result"].
 Proof. reflexivity. Qed.
 
+(* the spelling of a filter takes no part in what the loader makes of it: the engine reads FilterExpr.Src (the text of the Where
+   expression as written -- names of constants and helpers included, which mean something else in every group) in three places,
+   and each of them copies it into the src field of the filter being built (the text debug output shows).  A table of compiled
+   filters keyed by it, a comparison, a hash: any other use shows up here. *)
+Lemma filter_src_reads : gen_filter_src_reads =
+  ["ir_loader.go: newFilter: result := matchFilter{src: filter.Src}";
+   "ir_loader.go: newBinaryExprFilter: result := matchFilter{src: filter.Src}";
+   "ir_loader.go: newBinaryExprFilter: result := matchFilter{src: filter.Src}"].
+Proof. reflexivity. Qed.
+
 (* ---------------------------------------------------------------- the correspondence run: a whole file, model against specification *)
 Definition FUEL := 80.
 Definition spec_rule (mname : string) (st : env) (w : dexpr) : option fexpr :=
@@ -123,13 +133,20 @@ Lemma pinned_body_localDefine : gen_body_localDefine =
    "if len(stmt.Results) != 1 { panic(conv.errorf(stmt, ""expected a return statement with a result"")) }";
    "var params []string";
    "for _, field := range fn.Type.Params.List { if len(field.Names) == 0 { panic(conv.errorf(field, ""only named func params are supported"")) } for _, id := range field.Names { params = append(params, id.Name) } }";
-   "macro := localMacroFunc{ name: lhs.Name, params: params, template: stmt.Results[0], }";
+   "macro := localMacroFunc{ name: lhs.Name, params: params, template: stmt.Results[0], nonLocal: make(map[token.Pos]struct{}), }";
+   "ast.Inspect(macro.template, func(n ast.Node) bool { if id, ok := n.(*ast.Ident); ok { if obj := conv.types.Uses[id]; obj != nil && !isLocalVar(obj) { macro.nonLocal[id.Pos()] = struct{}{} } } return true })";
    "conv.groupFuncs = append(conv.groupFuncs, macro)"].
 Proof. reflexivity. Qed.
 
+(* findLocalMacro: a callee that go/types binds to something that is not a variable of the group function (a package-level
+   function, a builtin, a type) is not a helper, whatever the helpers are called -- for a node of the file go/types is asked, for
+   a copied template identifier the positions localDefine recorded with every helper; otherwise the first helper of that name.  The model
+   (MacroEnv.convertE) looks helpers up by name only: files in which a template calls a package-level name that a helper of the
+   group carries as well are outside the model and judged by the twin oracle alone. *)
 Lemma pinned_body_findLocalMacro : gen_body_findLocalMacro =
   ["fn, ok := call.Fun.(*ast.Ident)";
    "if !ok { return nil }";
+   "if obj := conv.types.Uses[fn]; obj != nil { if !isLocalVar(obj) { return nil } } else { for i := range conv.groupFuncs { if _, ok := conv.groupFuncs[i].nonLocal[fn.Pos()]; ok { return nil } } }";
    "for i := range conv.groupFuncs { if conv.groupFuncs[i].name == fn.Name { return &conv.groupFuncs[i] } }";
    "return nil"].
 Proof. reflexivity. Qed.
